@@ -9,12 +9,13 @@ import warnings
 from dataclasses import dataclass
 from typing import Any, Callable, Dict, Iterator, List, Optional
 
-from core import Case, Prop, SelfCheckFailure, exc_category, DOCUMENTED
+from core import Case, Prop, SelfCheckFailure, exc_category, DOCUMENTED, pack_stable, ISOLATION
 from gen import hx, unhx, rbytes
 
 import props.c06_fixed as c6f
 import props.c06_var as c6v
 import props.c07 as c07
+from props.c05 import shared_conf, conf_untouched, contrast_conf, decoded_alone
 
 from spacepackets.cfdp.defs import PduType
 from spacepackets.cfdp.pdu import (
@@ -190,6 +191,26 @@ def _payload(obj) -> Dict[str, Any]:
     return {"kind": k.idx, "pdu": f}
 
 
+def _digest(obj) -> Dict[str, Any]:
+    """cheap but complete view of whatever the factory returned, for the isolation probes: class, the octets it
+    re-packs to (every parameter and every configuration field is in there) and its lengths"""
+    if obj is None:
+        return {"kind": None}
+    r = c6f._repack(obj)
+    if r is None:
+        return _payload(obj)
+    return {"kind": type(obj).__name__, "raw": r, "packet_len": int(obj.packet_len), "header_len": int(obj.header_len)}
+
+
+def _isolated(obj, payload: Dict[str, Any]):
+    """the objects the factory returned to the previous calls are looked at again (decoding this input must not have
+    changed them), and this one is looked at again after another header was decoded"""
+    d = ISOLATION.check("C12:PduFactory", obj, _digest)
+    if obj is not None:
+        decoded_alone(obj, _digest, payload["pdu"], "PduFactory.from_raw", before=d)
+    return payload
+
+
 def _from_raw_sfx(raw: bytes, sfx: bytes):
     """factory on raw + suffix; a documented refusal of trailing octets is one of the two behaviours the
     statement allows (C09 clause) — then the PDU alone is decoded"""
@@ -262,7 +283,7 @@ def _holder_view(h: PduHolder, obj) -> Dict[str, Any]:
         if h.pdu is not obj or h.base is not obj:
             raise SelfCheckFailure("holder.pdu / holder.base is not the object that was stored")
     out = {"held": None if held is None else held.idx, "acc": acc, "packet_len": int(h.packet_len),
-           "raw": hx(h.pack()), "views": None}
+           "raw": hx(pack_stable(h, "PduHolder.pack()")), "views": None}
     if obj is not None:
         out["views"] = {"pdu_type": _sub(lambda: h.pdu_type, int, exact=True),
                         "is_file_directive": _sub(lambda: h.is_file_directive, bool, exact=True),
@@ -303,8 +324,10 @@ def _make_holder(obj, via: int) -> PduHolder:
 
 def _roundtrip(k: Kind, a, sfx: bytes):
     """pack, factory, and every clause of the statement visible on the real code alone"""
-    obj = k.build(a)
-    raw = bytes(obj.pack())
+    conf = shared_conf(a)      # the PduConfig instance a program would hold for these parameters (shared between cases)
+    obj = k.build(a, conf)
+    raw = pack_stable(obj, f"{k.cls.__name__}.pack()")
+    conf_untouched(conf, a, f"{k.cls.__name__}(...).pack()")
     dec = _from_raw_sfx(raw, sfx)
     if type(dec) is not k.cls:
         raise SelfCheckFailure(f"from_raw(pack(<{k.name}>)) returned {type(dec).__name__}")
@@ -324,11 +347,12 @@ def op_fac_roundtrip(a):
     h = PduFactory.from_raw_to_holder(raw)
     if getattr(h, k.accessor)() is not h.pdu or type(h.pdu) is not k.cls:
         raise SelfCheckFailure(f"from_raw_to_holder(pack(<{k.name}>)).{k.accessor}() does not return the decoded PDU")
-    return _payload(dec)
+    return _isolated(dec, _payload(dec))
 
 
 def op_fac_from_raw(a):
-    return _payload(_from_raw_sfx(unhx(a["raw"]), unhx(a["suffix"])))
+    obj = _from_raw_sfx(unhx(a["raw"]), unhx(a["suffix"]))
+    return _isolated(obj, _payload(obj))
 
 
 def op_fac_inspect(a):
@@ -337,6 +361,7 @@ def op_fac_inspect(a):
 
 def op_fac_holder_raw(a):
     h = PduFactory.from_raw_to_holder(unhx(a["raw"]))
+    ISOLATION.check("C12:PduFactory", h.pdu, _digest)
     v = _holder_view(h, h.pdu)
     _check_holder_table(v, _kind_of(h.pdu))
     return v
@@ -347,6 +372,7 @@ def op_fac_holder(a):
         obj = None
     else:
         obj = KINDS[a["kind"]].cls.unpack(unhx(a["raw"]))
+        ISOLATION.check("C12:PduFactory", obj, _digest)
     v = _holder_view(_make_holder(obj, a.get("via", 0)), obj)
     if a.get("canonical", True):
         _check_holder_table(v, _kind_of(obj))
@@ -625,6 +651,20 @@ class C12(Prop):
                 x = from_raw_case(raw, b"", "any", "random-octets")
                 if x:
                     yield Case({"op": "fac_holder_raw", "raw": hx(raw)}, "any", tag="random-octets")
+
+        # --- state leaking between calls / objects (the ops look again at what the factory returned to the previous
+        #     calls and hand the same PduConfig instance to cases with equal configuration parameters): one
+        #     configuration through all eight kinds back to back, the one differing in every field, the first again ---
+        for j in range(300 if thorough else 12):
+            a = c6f.rand_conf(rng)
+            b = contrast_conf(a)
+            for c in (a, b, a):
+                for k in KINDS:
+                    yield Case({"op": "fac_roundtrip", "kind": k.idx, **k.params(rng, c, j), "suffix": ""}, "valid",
+                               tag=f"{k.name}:shared-config")
+            for c in (a, b, a):
+                for k in KINDS:
+                    yield from_raw_case(k.spec(k.params(rng, c, j + 1)), b"", "valid", f"{k.name}:isolation-pair")
 
 
 PROP = C12()
